@@ -115,6 +115,36 @@ def fasta_derived(buf, k0, r1, r2, r3, w, crlf, final_nl):
     return FIN(ok)
 '''
 
+FASTA_COND += '''
+
+def length_after_edits(s0: int, n0: int, g: int, s1: int, n1: int, s2: int, n2: int, use_gap: bool) -> bool:
+    """
+    pre: s0 >= 1 and n0 >= 1 and g >= 1 and s1 >= 1 and n1 >= 1 and s2 >= 1 and n2 >= 1
+    post: _
+    """
+    # history: the scaffold's length is READ between in-place edits (append_scaffold with and
+    # without a gap, add_row), then the AGP is written: last object end == Scaffold.length,
+    # and the length always equals the sum of the row lengths
+    START()
+    sc = Scaffold("scf", [Fragment("a", s0, s0 + n0 - 1, 1)])
+    l1 = sc.length
+    other = Scaffold("o", [Fragment("b", s1, s1 + n1 - 1, -1)])
+    sc.append_scaffold(other, mkgap(g) if use_gap else None)
+    l2 = sc.length
+    sc.add_row(mkgap(g))
+    sc.add_row(Fragment("c", s2, s2 + n2 - 1, 0))
+    l3 = sc.length
+    empty = Scaffold("e")
+    l0 = empty.length
+    empty.append_scaffold(sc, mkgap(g))          # first rows: no gap is added to an empty scaffold
+    l4 = empty.length
+    asm = Assembly("asm", scaffolds=[sc, empty])
+    text = fmt_agp(asm)
+    exp2 = n0 + n1 + (g if use_gap else 0)
+    ok = AND(l1 == n0, l2 == exp2, l3 == exp2 + g + n2, l0 == 0, l4 == l3, asm.length == l3 + l4)
+    return FIN(AND(ok, agp_valid(text, [sc, empty])))
+'''
+
 for _w in (1, 2, 3):
     for _c in (False, True):
         for _f in (False, True):
@@ -140,6 +170,9 @@ def conditions(tier):
                             f"scaffolds {sp}: contig starts and lengths, gap lengths UNBOUNDED symbolic (>= 1), strands symbolic in {{-1,0,1}}, all 8 AGP gap types by position",
                             tier=tier_name, encodes=ENC))
         if tier_name == "quick":
+            out.append(Cond("length_read_between_in_place_edits", src, "length_after_edits", 300,
+                            "history: length read / append_scaffold (with or without gap, symbolic) / length read / add_row x2 / append onto an empty scaffold / format_agp; all numbers unbounded",
+                            encodes=ENC + ("Scaffold.append_scaffold", "Scaffold.add_row", "Assembly.length")))
             for w in (1, 2, 3):
                 for c in (False, True):
                     for f in (False, True):
